@@ -25,6 +25,30 @@ def verify(wd, stem, cfile, contracts, harness, target, replace=(), attempts=(("
     return pipeline.verify_chain(task)
 
 
+class Batch:
+    """collects verification tasks and runs them on the worker pool"""
+
+    def __init__(self):
+        self.items = []
+
+    def add(self, on_done, wd, stem, cfile, contracts, harness, target, replace=(), attempts=(("concrete", "sat", 300),), unwind=66, defs=(),
+            cbmc_flags=(), loop_contracts=False):
+        with open(os.path.join(wd, stem + "_contracts.h"), "w") as f:
+            f.write(contracts)
+        with open(os.path.join(wd, stem + "_harness.h"), "w") as f:
+            f.write(harness)
+        task = {"cfile": cfile, "contracts": stem + "_contracts.h", "harness": stem + "_harness.h", "target": target, "replace": list(replace),
+                "unwind": unwind, "workdir": wd, "stem": stem, "attempts": list(attempts), "defs": list(defs), "cbmc_flags": list(cbmc_flags),
+                "loop_contracts": loop_contracts}
+        self.items.append((task, on_done))
+
+    def run(self, workers=16):
+        res = pipeline.run_pool([t for t, _ in self.items], workers)
+        for (t, cb), r in zip(self.items, res):
+            cb(r)
+        self.items = []
+
+
 def native_offsets(wd, struct, fields, includes="#include <xsimd/xsimd.hpp>\n"):
     """supporting static fact: byte offsets of named fields (compiled with the test-suite's compiler)"""
     src = os.path.join(wd, "offsets.cpp")
